@@ -132,3 +132,4 @@ Print Assumptions no_truncation.
 Print Assumptions field_fits.
 Print Assumptions stream_wellformed.
 Print Assumptions alignment_checks_complete.
+Print Assumptions out_of_range_rejected_refuted.
